@@ -39,6 +39,15 @@ func genCli(g *G, n int, out io.Writer) {
 		p := strings.Replace(okProfile, "message: m", "message: "+yq(msg), 1)
 		inputs = append(inputs, pd{"special-chars", p, okData})
 	}
+	// data whose JSON spelling a re-encoder could normalise away: number literals (trailing zeros, exponents, beyond 2^53, long
+	// decimals, negative zero), characters encoding/json escapes on request (< > &), separators, escaped vs raw non-ASCII, key order
+	for k, d := range []string{
+		`[{"@id":"http://ex.org/n/0","@type":["` + NS + `T"],"` + NS + `p0":[1.50, 1e2, 9223372036854775807, 0.1000000000000000055511151231257827, -0, 1E+2, 1.0, 12345678901234567890123]}]`,
+		`[{"@id":"http://ex.org/n/0","@type":["` + NS + `T"],"` + NS + `p1":["<b>&amp;</b>", "a\u2028b", "\u00e9 é", "\ud83d\ude00", "tab\there", "\/slash"],"` + NS + `p0":[{"@value":"1.50","@type":"http://www.w3.org/2001/XMLSchema#decimal"}, true, null]}]`,
+		`{"@graph":[{"` + NS + `z":3.0e0,"@id":"http://ex.org/n/1","` + NS + `a":[2.50,{"@id":"http://ex.org/n/0"}]},{"@id":"http://ex.org/n/0","@type":"` + NS + `T"}]}`,
+	} {
+		inputs = append(inputs, pd{fmt.Sprintf("data-spelling-%d", k), okProfile, d})
+	}
 	bad := []pd{
 		{"bad-profile", "profile: [", okData},
 		{"bad-profile-prefix", profVariants[9].text, okData},
